@@ -119,6 +119,11 @@ def main():
         sys.exit(2)
     if args[0] == "--setup":
         build(False)
+        # the trusted base has its own unit tests (key registry laws, reference quorum arithmetic against brute force)
+        p = subprocess.run(["go", "test", "-count=1", "./fakes/", "./ref/"] , cwd=ROOT, env=ENV, stdout=subprocess.PIPE, stderr=subprocess.STDOUT, text=True)
+        if p.returncode != 0:
+            log("TRUSTED BASE SELF-TEST FAILED:\n" + p.stdout[-4000:])
+            sys.exit(2)
         sys.exit(0)
     if args[0] == "--replay":
         binary = build(False)
